@@ -1,0 +1,15 @@
+package document
+
+import "github.com/gmrtd/gmrtd/tlv"
+
+// outerNode returns the template an LDS file consists of: the first (outer) data object of the
+// file, which must carry the tag of the requested file. A file that merely contains such a
+// template behind an object with another tag is not a file of that kind.
+func outerNode(nodes *tlv.TlvNodes, tag tlv.TlvTag) tlv.TlvNode {
+	all := nodes.Nodes()
+	if len(all) < 1 || all[0].Tag() != tag {
+		return tlv.NewTlvNilNode()
+	}
+
+	return all[0]
+}
